@@ -70,6 +70,7 @@ func changeRequestToTarget(req *http.Request, httpsDefault bool) error {
 	}
 
 	targetUrl.Path = req.URL.Path
+	targetUrl.RawPath = req.URL.RawPath // keep the client's escaping (e.g. %2F) instead of re-encoding Path
 	targetUrl.RawQuery = req.URL.RawQuery
 	targetUrl.Fragment = req.URL.Fragment
 	req.URL = targetUrl
